@@ -27,7 +27,7 @@ ASSUMPTIONS = [
     "lift L: the stepper is linear, so the matrix assembled from all grid deltas represents it on ALL real states",
     "non-amplifying coefficient choices are selected at run time from the reference symbol (max_k Re lambda(k) <= 0 over the whole grid incl. Nyquist)",
 ]
-LS = [1.0, 2 * math.pi, 0.37]
+LS = [1.0, 2 * math.pi, 0.37, 30.0]
 DTS = [1e-3, 1.0, 1e3, 1e6]
 
 
